@@ -318,10 +318,22 @@ func (g *Graph) Facts(loc Loc) []Fact {
 		}
 		t := !g.reachableWithoutEdge(d, 0, loc.B)
 		f := !g.reachableWithoutEdge(d, 1, loc.B)
+		// facts are reported without outer negations: !(X) known true is X known false
+		neg := false
+		if tag == nil {
+			for {
+				u, isU := ast.Unparen(cond).(*ast.UnaryExpr)
+				if !isU || u.Op != token.NOT {
+					break
+				}
+				cond = ast.Unparen(u.X)
+				neg = !neg
+			}
+		}
 		if t && !f {
-			out = append(out, Fact{Expr: cond, Tag: tag, Val: true, Blk: d})
+			out = append(out, Fact{Expr: cond, Tag: tag, Val: !neg, Blk: d})
 		} else if f && !t {
-			out = append(out, Fact{Expr: cond, Tag: tag, Val: false, Blk: d})
+			out = append(out, Fact{Expr: cond, Tag: tag, Val: neg, Blk: d})
 		}
 	}
 	return out
